@@ -192,6 +192,97 @@ def rate_test_config(ctx, rate, ncalls, seed):
                  f"Config.sample_rate() = {rate}: {store.n} of {ncalls} calls reached the store, acceptance interval [{lo}, {hi}] for p=1/{rate}", raise_=False)
 
 
+def rate_test_nested(ctx, outer_rate, inner_rate, ncalls, seed):
+    """a tracing context entered inside another one samples at ITS OWN rate and logs to ITS OWN logger"""
+    outer, inner = Count(), Count()
+    random.seed(seed)
+    code = _wl.__code__
+    with trace_calls(outer, 0, lambda c: c is code, outer_rate):
+        _wl(0)
+        with trace_calls(inner, 0, lambda c: c is code, inner_rate):
+            for i in range(ncalls):
+                _wl(i)
+        before = outer.n
+        for i in range(ncalls):
+            _wl(i)
+        after_outer = outer.n - before
+    spec = ["RATENESTED", outer_rate, inner_rate, ncalls, seed]
+    ctx.case(spec, True, ["rate-workload-nested-contexts:%s-in-%s" % (inner_rate, outer_rate)])
+    for who, rate, got in (("inner", inner_rate, inner.n), ("outer (after the inner one closed)", outer_rate, after_outer)):
+        if rate in (None, 1):
+            if got != ncalls:
+                ctx.fail("C18/rate-unset-or-1-not-all-traced", spec, f"{who} context with rate {rate} (outer {outer_rate}, inner {inner_rate}): {got} of {ncalls} calls traced", raise_=False)
+            continue
+        lo, hi = interval(ncalls, 1.0 / rate)
+        if not lo <= got <= hi:
+            ctx.fail("C18/traced-fraction-outside-binomial-bounds", spec,
+                     f"{who} context with rate {rate} (outer {outer_rate}, inner {inner_rate}): {got} of {ncalls} calls traced, acceptance interval [{lo}, {hi}]", raise_=False)
+
+
+async def _ag(n):
+    yield n
+    n = str(n)
+    yield n
+    n = [n]
+    yield 1.5
+    n = (n, n)
+    yield None
+
+
+async def _ag2(a, *, b=None):
+    for i in range(5):
+        yield a
+        a = {i: a}
+        b = b"x"
+
+
+def _drive_async_gen(ag):
+    out = 0
+    while True:
+        step = ag.__anext__()
+        try:
+            step.send(None)
+        except StopIteration:
+            out += 1
+        except StopAsyncIteration:
+            return out
+
+
+class Keep(CallTraceLogger):
+    def __init__(self):
+        self.traces = []
+
+    def log(self, t):
+        self.traces.append(t)
+
+
+def async_generators(ctx, rate, ncalls, seed):
+    """asynchronous generators under sampling: at most one trace per call and its argument types are those of the call's
+    arguments, however often the frame was resumed and whatever its parameters were rebound to meanwhile. (Their yield and
+    return types are outside every listed quantifier and are not judged.)"""
+    lg = Keep()
+    random.seed(seed)
+    codes = (_ag.__code__, _ag2.__code__)
+    with trace_calls(lg, 0, lambda c: c in codes, rate):
+        for i in range(ncalls):
+            _drive_async_gen(_ag(i))
+            _drive_async_gen(_ag2(1.5, b="s"))
+    spec = ["ASYNCGEN", rate, ncalls, seed]
+    ctx.case(spec, True, ["async-generators-under-sampling:%s" % rate])
+    want = {"_ag": {"n": int}, "_ag2": {"a": float, "b": str}}
+    per = {}
+    for t in lg.traces:
+        per[t.func.__name__] = per.get(t.func.__name__, 0) + 1
+        if dict(t.arg_types) != want[t.func.__name__]:
+            return ctx.fail("C18/argument-types-differ:generator-under-sampling", spec,
+                            f"async generator {t.func.__name__} called with {want[t.func.__name__]} logged with argument types {t.arg_types} (rate {rate})", raise_=False)
+    for fn, n in per.items():
+        if n > ncalls:
+            return ctx.fail("C18/logged-more-than-once", spec, f"{n} traces for {ncalls} calls of async generator {fn}", raise_=False)
+    if rate in (None, 1) and any(per.get(fn, 0) != ncalls for fn in want):
+        ctx.fail("C18/rate-unset-or-1-not-all-traced", spec, f"async generators: {per} traces for {ncalls} calls each with rate {rate}", raise_=False)
+
+
 def _wg(n):
     for i in range(n):
         yield i
@@ -300,6 +391,9 @@ def shard(ctx):
         if i % ctx.nshards == ctx.shard:
             rate_test(ctx, r, n if r != 100 else n, ctx.seed * 1000 + s)
             rate_test_config(ctx, r, n // 4, ctx.seed * 1000 + s + 3)
+            async_generators(ctx, r, 300 if q else 3000, ctx.seed * 1000 + s + 17)
+            rate_test_nested(ctx, r, RATES[(i + 1) % len(RATES)], n // 8, ctx.seed * 1000 + s + 19)
+            rate_test_nested(ctx, RATES[(i + 2) % len(RATES)], r, n // 8, ctx.seed * 1000 + s + 23)
             if r not in (None, 1):
                 rate_test_many(ctx, r, 400, 25 if q else 100, ctx.seed * 1000 + s + 7)
                 rate_test_mixed(ctx, r, 4000 if q else 20000, [1, 7, 24][(i + ctx.seed) % 3], ctx.seed * 1000 + s + 13)
@@ -312,6 +406,10 @@ def run(ctx):
 def replay(ctx, case):
     if case[0] == "RATE":
         return rate_test(ctx, case[1], case[2], case[3])
+    if case[0] == "RATENESTED":
+        return rate_test_nested(ctx, case[1], case[2], case[3], case[4])
+    if case[0] == "ASYNCGEN":
+        return async_generators(ctx, case[1], case[2], case[3])
     if case[0] == "RATECFG":
         return rate_test_config(ctx, case[1], case[2], case[3])
     if case[0] == "RATEMIXED":
